@@ -101,13 +101,13 @@ Proof.
 Qed.
 
 (* one pass of a YEARLY rule (day-selecting parts: BYMONTH, BYMONTHDAY, BYYEARDAY, plain BYDAY,
-   guarded BYWEEKNO, BYEASTER in 1583..4099): the ordinals of the surviving days are exactly the days
+   guarded BYWEEKNO, BYEASTER in 1583..4098): the ordinals of the surviving days are exactly the days
    of calendar year y that RRSpec.day_ok accepts, in order *)
 Theorem yearly_pass_days_correct : forall r rl y month ii,
   normalize r = Ok rl -> spec_wf r = true -> r_freq r = YEARLY -> plain_only r = true ->
   all_opt (r_byweekno r) weekno_safe = true ->
-  (r_byeaster r = None \/ 1583 <= y <= 4099) ->
-  2 <= y <= 9999 -> rebuild rl ii_init y month = Ok ii ->
+  (r_byeaster r = None \/ 1583 <= y <= 4098) ->
+  1 <= y <= 9999 -> rebuild rl ii_init y month = Ok ii ->
   exists ds ds' f,
     getdayset rl ii y month 1 = Ok (ds, 0, year_len y) /\
     filter_loop rl ii (py_slice ds 0 (year_len y)) ds false = Ok (ds', f) /\
@@ -179,8 +179,8 @@ Proof. induction l as [|x t IH]; cbn [map flat_map]; [reflexivity|]. rewrite IH.
 Theorem yearly_pass_candidates : forall r rl y month ii ts cnt out,
   normalize r = Ok rl -> spec_wf r = true -> r_freq r = YEARLY -> plain_only r = true ->
   all_opt (r_byweekno r) weekno_safe = true ->
-  (r_byeaster r = None \/ 1583 <= y <= 4099) ->
-  2 <= y <= 9999 -> rebuild rl ii_init y month = Ok ii ->
+  (r_byeaster r = None \/ 1583 <= y <= 4098) ->
+  1 <= y <= 9999 -> rebuild rl ii_init y month = Ok ii ->
   exists ds ds' f,
     getdayset rl ii y month 1 = Ok (ds, 0, year_len y) /\
     filter_loop rl ii (py_slice ds 0 (year_len y)) ds false = Ok (ds', f) /\
@@ -218,8 +218,8 @@ Qed.
 Theorem yearly_pass_yields : forall r rl y month ii ts cnt out,
   normalize r = Ok rl -> spec_wf r = true -> r_freq r = YEARLY -> plain_only r = true ->
   all_opt (r_byweekno r) weekno_safe = true ->
-  (r_byeaster r = None \/ 1583 <= y <= 4099) ->
-  2 <= y <= 9999 -> rebuild rl ii_init y month = Ok ii ->
+  (r_byeaster r = None \/ 1583 <= y <= 4098) ->
+  1 <= y <= 9999 -> rebuild rl ii_init y month = Ok ii ->
   exists ds ds' f,
     getdayset rl ii y month 1 = Ok (ds, 0, year_len y) /\
     filter_loop rl ii (py_slice ds 0 (year_len y)) ds false = Ok (ds', f) /\
@@ -255,8 +255,8 @@ Theorem yearly_pass_is_spec_step : forall r rl k month ii ts cnt out,
   r_bysetpos r = None ->
   all_opt (r_byweekno r) weekno_safe = true ->
   let y := r_y r + k * r_interval r in
-  (r_byeaster r = None \/ 1583 <= y <= 4099) ->
-  2 <= y <= 9999 -> rebuild rl ii_init y month = Ok ii -> timeset rl = Some ts ->
+  (r_byeaster r = None \/ 1583 <= y <= 4098) ->
+  1 <= y <= 9999 -> rebuild rl ii_init y month = Ok ii -> timeset rl = Some ts ->
   exists ds ds' f,
     getdayset rl ii y month 1 = Ok (ds, 0, year_len y) /\
     filter_loop rl ii (py_slice ds 0 (year_len y)) ds false = Ok (ds', f) /\
@@ -302,15 +302,16 @@ Proof.
   rewrite HN. change (nwdaymask ii_init) with (@None (list Z)).
   destruct (truthy (byeaster rl)) eqn:TE.
   - destruct (RRMasks.easter_ord y) as [eo|e]; cbn [bind]; [|reflexivity].
-    destruct (build_eastermask _ _ _); cbn [bind]; reflexivity.
+    destruct (if y <? T_MAXYEAR then _ else _) as [ne|e]; cbn [bind]; [|reflexivity].
+    destruct (build_eastermask _ _ _ _); cbn [bind]; reflexivity.
   - destruct HE as [HE|HE]; [discriminate HE|]. rewrite HE. reflexivity.
 Qed.
 
-(* rebuild() never raises for rules without nth weekdays: years 2..9999 (1583..4099 with BYEASTER),
+(* rebuild() never raises for rules without nth weekdays: years 2..9999 (1583..4098 with BYEASTER),
    any BYWEEKNO list -- no IndexError, no ValueError *)
 Theorem rebuild_succeeds : forall rl y month,
-  2 <= y <= 9999 -> 0 <= wkst rl <= 6 -> truthy (bynweekday rl) = false ->
-  (truthy (byeaster rl) = false \/ 1583 <= y <= 4099) ->
+  1 <= y <= 9999 -> 0 <= wkst rl <= 6 -> truthy (bynweekday rl) = false ->
+  (truthy (byeaster rl) = false \/ 1583 <= y <= 4098) ->
   exists ii', rebuild rl ii_init y month = Ok ii'.
 Proof.
   intros rl y month Hy Hk TN HE. unfold rebuild.
@@ -320,17 +321,20 @@ Proof.
   destruct (if year_len y =? 365 then _ else _) as [[[mm mdm] nmdm] mr].
   assert (W : exists wno,
      (if negb (truthy (byweekno rl)) then Ok None
-      else do m <- build_wnomask y (year_len y) (weekday_of_ord (jan1 y)) (wkst rl)
+      else do m <- build_wnomask y (year_len y) (year_len (y + 1)) (weekday_of_ord (jan1 y)) (wkst rl)
                      (py_from T_WDAYMASK (weekday_of_ord (jan1 y))) (opt_list (byweekno rl));
            Ok (Some m)) = Ok wno).
   { destruct (negb (truthy (byweekno rl))); [eexists; reflexivity|].
-    destruct (wnomask_no_index_error_calendar y (wkst rl) (opt_list (byweekno rl)) Hy Hk) as (m & Em).
+    destruct (wnomask_no_index_error_calendar y (wkst rl) (opt_list (byweekno rl)) Hk) as (m & Em).
     cbv zeta in Em. rewrite Em. cbn [bind]. eexists; reflexivity. }
   destruct W as (wno & Ew). rewrite Ew. cbn [bind]. rewrite TN. cbn [andb bind yearordinal yearlen].
   destruct (truthy (byeaster rl)) eqn:TE.
   - destruct HE as [HE|HE]; [discriminate HE|].
-    rewrite (easter_ord_is_spec y HE). cbn [bind].
-    destruct (eastermask_fold_correct (easter_ord_spec y - jan1 y) (year_len y) (opt_list (byeaster rl))
+    rewrite (easter_ord_is_spec y ltac:(lia)). cbn [bind].
+    unfold T_MAXYEAR. replace (y <? 9999) with true by lia.
+    rewrite (easter_ord_is_spec (y + 1) ltac:(lia)). cbn [bind].
+    destruct (eastermask_fold_correct (easter_ord_spec y - jan1 y) (Some (easter_ord_spec (y + 1) - jan1 y))
+                (year_len y) (opt_list (byeaster rl))
                 ltac:(unfold year_len; destruct (is_leap y); lia)) as (m & Em & _).
     rewrite Em. cbn [bind]. eexists; reflexivity.
   - eexists; reflexivity.
